@@ -18,7 +18,8 @@ Z == [t |-> "", lo |-> 0, hi |-> 0, tgt |-> <<>>, arr |-> <<>>]
 BfChars == {[Z EXCEPT !.t = "bfchar", !.lo = c, !.tgt = t] : c \in CodeVals, t \in Targets \cup {TS, T3}}
 BfRanges == {[Z EXCEPT !.t = "bfrange", !.lo = r[1], !.hi = r[2], !.tgt = t] : r \in Ranges, t \in Targets \cup LongTargets}
 BfArrs == {[Z EXCEPT !.t = "bfrarr", !.lo = r[1], !.hi = r[2], !.arr = a] : r \in Ranges, a \in {<<TA>>, <<TF, TAB>>, <<TAB, TA, TF>>}}
-Marks == {[Z EXCEPT !.t = "endcmap"], [Z EXCEPT !.t = "begincmap"]}
+Marks == {[Z EXCEPT !.t = "endcmap"], [Z EXCEPT !.t = "begincmap"],
+          [Z EXCEPT !.t = "junkchar", !.lo = 1], [Z EXCEPT !.t = "junkrange", !.lo = 0, !.hi = 1]}
 MCEntries == BfChars \cup BfRanges \cup BfArrs \cup Marks
 \* a smaller alphabet for three-entry sequences in the quick tier
 SmallEntries == {e \in MCEntries : (e.t = "bfchar" => e.lo \in {1, 256} /\ e.tgt \in {TA, TAB})
